@@ -36,6 +36,35 @@ type poolFile struct {
 	armedTruncate bool
 	armedWrite    int
 	consumed      int // faults consumed since the last arm
+
+	// clock (optional) is the per-case event counter; every WriteAt/Truncate
+	// call is stamped with it so that the harness can tell whether a
+	// mutation of the pool file ran while a frozen reader / upload was known
+	// to hold the file frozen.
+	clock *atomic.Int64
+	muts  []mutEvent
+}
+
+type mutEvent struct {
+	seq int64
+	op  string
+}
+
+// stampMutation is called with mu held by the calls that change the file.
+func (f *poolFile) stampMutation(op string) {
+	if f.clock != nil {
+		f.muts = append(f.muts, mutEvent{seq: f.clock.Add(1), op: op})
+	}
+}
+
+// mutationsSince returns the mutation events from index i on.
+func (f *poolFile) mutationsSince(i int) []mutEvent {
+	f.mu.Lock()
+	defer f.mu.Unlock()
+	if i >= len(f.muts) {
+		return nil
+	}
+	return append([]mutEvent(nil), f.muts[i:]...)
 }
 
 func newPoolFile(size uint64) *poolFile {
@@ -79,6 +108,7 @@ func (f *poolFile) WriteAt(p []byte, off int64) (int, error) {
 	f.mu.Lock()
 	defer f.mu.Unlock()
 	f.touch(fmt.Sprintf("WriteAt(%d,%d)", len(p), off))
+	f.stampMutation(fmt.Sprintf("WriteAt(%d,%d)", len(p), off))
 	if off < 0 {
 		return 0, fmt.Errorf("negative offset")
 	}
@@ -106,6 +136,7 @@ func (f *poolFile) Truncate(size int64) error {
 	f.mu.Lock()
 	defer f.mu.Unlock()
 	f.touch(fmt.Sprintf("Truncate(%d)", size))
+	f.stampMutation(fmt.Sprintf("Truncate(%d)", size))
 	if f.armedTruncate {
 		f.armedTruncate = false
 		f.consumed++
@@ -193,10 +224,12 @@ func (f *poolFile) disarm() int {
 type fakePool struct {
 	mu    sync.Mutex
 	files []*poolFile
+	clock *atomic.Int64 // handed to every file created (may be nil)
 }
 
 func (p *fakePool) NewFile(holeSource pool.HoleSource, size uint64) (filesystem.FileReadWriter, error) {
 	f := newPoolFile(size)
+	f.clock = p.clock
 	p.mu.Lock()
 	p.files = append(p.files, f)
 	p.mu.Unlock()
@@ -216,7 +249,9 @@ func (p *fakePool) count() int {
 // ---------------------------------------------------------------------
 
 type casPlan struct {
-	Park string // "none", "before", "mid", "after"
+	// "none", "before", "mid", "after"; "preclose" (handover sub-check only):
+	// after the whole blob was read, before the buffer is closed.
+	Park string
 	Fail bool
 }
 
@@ -233,6 +268,30 @@ type fakeCAS struct {
 	readErr   error
 	mismatch  string // non-empty: bytes read do not hash to the digest given
 	returned  bool
+
+	// Event stamps (0 = not happened). putSeq: Put was entered, i.e. the
+	// upload has frozen the file before this instant. closeSeq: the CAS is
+	// about to close/discard the buffer, i.e. the freeze lasts at least
+	// until this instant.
+	clock    *atomic.Int64
+	putSeq   int64
+	closeSeq int64
+}
+
+func (c *fakeCAS) stampClose() {
+	if c.clock != nil {
+		c.mu.Lock()
+		if c.closeSeq == 0 {
+			c.closeSeq = c.clock.Add(1)
+		}
+		c.mu.Unlock()
+	}
+}
+
+func (c *fakeCAS) stamps() (putSeq, closeSeq int64) {
+	c.mu.Lock()
+	defer c.mu.Unlock()
+	return c.putSeq, c.closeSeq
 }
 
 func newFakeCAS(plan casPlan) *fakeCAS {
@@ -261,6 +320,9 @@ func (c *fakeCAS) Put(ctx context.Context, d digest.Digest, b buffer.Buffer) err
 	c.mu.Lock()
 	c.putCalls++
 	c.gotDigest = d
+	if c.clock != nil && c.putSeq == 0 {
+		c.putSeq = c.clock.Add(1)
+	}
 	c.mu.Unlock()
 	defer func() {
 		c.mu.Lock()
@@ -271,13 +333,15 @@ func (c *fakeCAS) Put(ctx context.Context, d digest.Digest, b buffer.Buffer) err
 	if c.plan.Park == "before" {
 		c.park()
 	}
-	if c.plan.Fail && c.plan.Park != "mid" && c.plan.Park != "after" {
+	if c.plan.Fail && c.plan.Park != "mid" && c.plan.Park != "after" && c.plan.Park != "preclose" {
+		c.stampClose()
 		b.Discard()
 		return errInjectedCAS
 	}
 
 	size, err := b.GetSizeBytes()
 	if err != nil {
+		c.stampClose()
 		b.Discard()
 		return err
 	}
@@ -287,20 +351,27 @@ func (c *fakeCAS) Put(ctx context.Context, d digest.Digest, b buffer.Buffer) err
 		first = size
 	}
 	if err := c.readN(r, first); err != nil {
+		c.stampClose()
 		r.Close()
 		return err
 	}
 	if c.plan.Park == "mid" {
 		c.park()
 		if c.plan.Fail {
+			c.stampClose()
 			r.Close()
 			return errInjectedCAS
 		}
 		if err := c.readN(r, size-first); err != nil {
+			c.stampClose()
 			r.Close()
 			return err
 		}
 	}
+	if c.plan.Park == "preclose" {
+		c.park()
+	}
+	c.stampClose()
 	r.Close()
 
 	c.mu.Lock()
